@@ -414,6 +414,26 @@ func genC25(g *gen) {
 	g.line("Definition gen_handler_release_sites : list (string * N) := [%s].", strings.Join(relItems, "; "))
 	g.line("Definition gen_release_guarded_by_released_flag : bool := %s.", coqBool(guardOK))
 	g.line("Definition gen_start_failure_releases_before_session_recorded : bool := %s.", coqBool(startFailBeforeRecord))
+	// ValidateAuth: every bcrypt error rejects
+	authRejectAny := false
+	if fd := findFunc(f, "Executor", "ValidateAuth"); fd != nil && fd.Body != nil {
+		errVar := ""
+		for _, st := range fd.Body.List {
+			switch x := st.(type) {
+			case *ast.AssignStmt:
+				if len(x.Rhs) == 1 && strings.HasPrefix(nospace(src(x.Rhs[0])), "bcrypt.CompareHashAndPassword(") && len(x.Lhs) == 1 {
+					errVar = src(x.Lhs[0])
+				}
+			case *ast.IfStmt:
+				if errVar != "" && x.Init == nil && nospace(src(x.Cond)) == errVar+"!=nil" && len(x.Body.List) == 1 {
+					if r, ok := x.Body.List[0].(*ast.ReturnStmt); ok && len(r.Results) == 1 && src(r.Results[0]) != "nil" {
+						authRejectAny = true
+					}
+				}
+			}
+		}
+	}
+	g.line("Definition gen_password_rejected_on_any_bcrypt_error : bool := %s.", coqBool(authRejectAny))
 	g.line("Definition gen_shell_config_literals : N := %d.", shellLiterals)
 	g.line("Definition gen_shell_config_wiring : list (string * string) := [%s].", strings.Join(shellWiring, "; "))
 	g.line("Definition gen_error_paths_after_acquire : list (string * N * N * N) := [%s].", strings.Join(epItems, "; "))
